@@ -309,7 +309,7 @@ def generate_ggsw(ctx, rng):
         so = sa + rng.range(-1, 1)
         so = max(so, adnum * adsize, adsize + 1)
         c["kout"] = so * c["bout"]
-        # res.dnum <= a.dnum is what the entry assertion admits (ggsw_keyswitch panicked for < before poulpy 95a5a90)
+        # res.dnum <= a.dnum is what the entry assertion admits (ggsw_keyswitch panicked for < before poulpy 4a48098)
         c["rdnum"] = adnum if (op not in ("ggsw_auto", "ggsw_ks") or k % 8 == 0) else max(1, adnum - 1)
         # key and tensor key cover the result precision
         a_size = ceil_div(max(sa, so) * c["bin"], c["bkey"])
